@@ -361,6 +361,9 @@ func (s *seqRT) ruleNoStaticRecursion() {
 					continue
 				}
 				callee = bodyOf(callee)
+				if o := callee.Origin(); o != nil {
+					callee = o // an instance of a generic function (instantiation wrappers have a body of their own)
+				}
 				if j, ok := idx[callee]; ok {
 					adj[i] = append(adj[i], j)
 				}
